@@ -152,4 +152,52 @@ def Que.stepWith (all : Bool) (q : Que) : QueEv → Que × Option (Nat × Option
 
 def Que.step := Que.stepWith true
 
+/-! ## ATX LED hat: one serial port, reply lines in wire order, one lock
+
+`atxled.SyncDaliHatDriver.send` runs its whole exchange — `conn.write(cmd)`,
+then `read_line()` until the reply line(s) of that transmission have been read
+— inside `with self.lock:` (a `threading.RLock`; `read_line` re-enters it).
+The hat prints one line per transmitted frame, in wire order, with nothing in
+it that says which command it answers.  Ghost data: every pending line carries
+the thread whose transmission it answers. -/
+
+structure Hat where
+  lines : List Nat             -- reply lines printed and not yet read (ghost: whose transmission)
+  holder : Option Nat          -- the thread inside the outermost `with self.lock:`
+  owed : Nat                   -- lines the holder has caused and not read yet
+  deriving Repr, DecidableEq
+
+def Hat.init : Hat := ⟨[], none, 0⟩
+
+inductive HatEv where
+  | acquire (t : Nat)          -- enters the outermost `with self.lock:`
+  | write (t n : Nat)          -- `conn.write(cmd)`: the hat will print `n` lines for it (2 for send-twice)
+  | read (t : Nat)             -- `read_line()` returns the next line
+  | release (t : Nat)          -- leaves the outermost `with self.lock:`
+  deriving Repr
+
+/-- `none` = the event is not enabled.  For `read`: (reader, ghost owner of the
+line).  `strict` = true is the code: `send` leaves the lock only after it has
+read a line for every frame it had transmitted (the hat answers within the five
+reads); `strict` = false lets go of the lock at any time (a lock that brackets
+the write only). -/
+def Hat.stepWith (strict : Bool) (h : Hat) : HatEv → Option (Hat × Option (Nat × Nat))
+  | .acquire t =>
+    if h.holder = none then some ({ h with holder := some t, owed := 0 }, none) else none
+  | .write t n =>
+    if h.holder = some t then
+      some ({ h with lines := h.lines ++ List.replicate n t, owed := h.owed + n }, none)
+    else none
+  | .read t =>
+    if h.holder = some t then
+      match h.lines with
+      | l :: rest => some ({ h with lines := rest, owed := h.owed - 1 }, some (t, l))
+      | [] => none
+    else none
+  | .release t =>
+    if h.holder = some t ∧ (strict = false ∨ h.owed = 0) then some ({ h with holder := none }, none)
+    else none
+
+def Hat.step := Hat.stepWith true
+
 end DaliVerif.Routing
